@@ -242,7 +242,8 @@ def run(chk, args):
             "trunc:tx-beyond-MaxConcurrency-in-file-below-cut-file", "replica:early-written-tx-layouts"] + ["trunc:early-written-tx-at-distance:%d" % d for d in range(1, D + 1)] + [
             "db:truncations", "db:restart", "db:refused-exports", "db:requests-after-refused-exports", "db:old-row-error", "db:row-served", "db:doc-served", "free:truncations", "race:each-call-held-one-log"]
     missing = [k for k in need if not c.get(k)]
-    if missing:
+    if missing and not chk.violations:
+        # (a violation may starve a counter: e.g. a refused export that leaks its tx holder ends the scenario before it is counted)
         raise MachineryFault("vacuous run: counters %s are zero" % missing)
     if selftest == "2":
         if not drift:
